@@ -26,7 +26,7 @@ op_ctx = dict(
          (r'\bmutex_\.try_lock\(\)', 'async_mutex_try_lock(mutex_)'),
          (r'\bmutex->process_queue\(\)', 'async_mutex_process_queue(mutex)'),
          (r'(\w+)->mutex_\.unlock\(\)', r'async_mutex_unlock(\1->mutex_)'),
-         (r'\bmutex_\.queue_', 'mutex_->queue_'),
+         (r'\bmutex_\.(queue_|locked_)', r'mutex_->\1'),
          (r'\b(push_back|push_front|try_remove)\(this\)', r'\1(&this->base)'),          # type : waiter_base upcast made explicit
          (r'\btry_complete\((\w+)\)', r'EV_try_complete(\1)'),                           # cancellable<> arbitration (C19)
          (r'(\w+)->forwardingOp_\.start\(\*\1\)', r'EV_forward_start(\1)'),              # completion_forwarder: scheduler hop, then forward_set_value
